@@ -252,6 +252,20 @@ class Emitter:
         self.lines = []
         self.counter = counter if counter is not None else [0]
         self.st = st
+        self.reads = []          # array reads not yet accounted for in `ok`: (array term, index term)
+
+    def flush(self):
+        """fold the pending reads into the `ok` flag of the current state"""
+        if self.reads:
+            seen = []
+            for r in self.reads:
+                if r not in seen:
+                    seen.append(r)
+            new = self.fresh("st")
+            cond = " && ".join([f"{self.st}.ok"] + [f"inb {a} {i}" for a, i in seen])
+            self.lines.append(f"let {new} : RS := {{ {self.st} with ok := {cond} }}")
+            self.st = new
+            self.reads = []
 
     def fresh(self, p):
         self.counter[0] += 1
@@ -277,6 +291,7 @@ class Emitter:
         if k == "idx":
             e = self.expr(n[2])
             base = f"{self.st}.{n[1]}" if n[1] in self.mutable else n[1]
+            self.reads.append((base, f"({e}).toNat"))
             return f"({base}.getD ({e}).toNat 0)"
         if k == "bin":
             self.check_disjoint([n[2], n[3]], f"operands of {n[1]}")
@@ -313,8 +328,10 @@ class Emitter:
             v = self.fresh("v")
             if n[1] == "+=":
                 self.lines.append(f"let {v} := ({self.st}.{l[1]}.getD ({idx}).toNat 0) + {rhs}")
+                self.reads.append((f"{self.st}.{l[1]}", f"({idx}).toNat"))
             else:
                 self.lines.append(f"let {v} := {rhs}")
+            self.flush()
             new = self.fresh("st")
             self.lines.append(f"let {new} : RS := {{ {self.st} with {l[1]} := wr {self.st}.{l[1]} ({idx}).toNat {v} }}")
             self.st = new
@@ -323,12 +340,14 @@ class Emitter:
             if self.M.effects(n[1])[1]:
                 raise Untranslatable("condition with side effects")
             c = self.expr(n[1])
-            if not (self.M.effects(n[2])[1] or self.M.effects(n[3])[1]):
+            ea, eb = self.M.effects(n[2]), self.M.effects(n[3])
+            if not (ea[0] or ea[1] or eb[0] or eb[1]):
                 return f"(if {c} ≠ 0 then {self.expr(n[2])} else {self.expr(n[3])})"
             blocks = []
             for br in (n[2], n[3]):
                 e = Emitter(self.M, self.mutable, self.counter, self.st)
                 val = e.expr(br)
+                e.flush()
                 blocks.append("(" + "; ".join(e.lines + [f"({e.st}, {val})"]) + ")")
             r = self.fresh("r")
             self.lines.append(f"let {r} : RS × UInt32 := if {c} ≠ 0 then {blocks[0]} else {blocks[1]}")
@@ -370,6 +389,7 @@ def proc_def(M, name, mutable, returns_value):
     val = None
     for st in M.body(name):
         val = e.expr(st)
+    e.flush()
     sig = f"def {name}"
     if arrays:
         sig += f" ({' '.join(arrays)} : List UInt32)"
@@ -500,9 +520,12 @@ def generate(repo):
         out.append(pure_def(M, name) + "\n")
     out.append("/-- checked array write: an out-of-range index destroys the array, so that no theorem about the\n"
                "results can hold by accident of a silently dropped write -/\n"
-               "def wr {α : Type} (a : List α) (i : Nat) (v : α) : List α := if i < a.length then a.set i v else []\n\n")
+               "def wr {α : Type} (a : List α) (i : Nat) (v : α) : List α := if i < a.length then a.set i v else []\n\n"
+               "/-- `i` is a valid index of `a`; every array read of the translated macros is recorded with it in the\n"
+               "`ok` flag of the state (`ok` = no array read so far was out of range) -/\n"
+               "def inb {α : Type} (a : List α) (i : Nat) : Bool := decide (i < a.length)\n\n")
     out.append("/-- the local arrays assigned by the statement macros -/\nstructure RS where\n" +
-               "".join(f"  {a} : List UInt32\n" for a in mutable) + "\n")
+               "".join(f"  {a} : List UInt32\n" for a in mutable) + "  ok : Bool\n\n")
     for name, rv in PROCS:
         out.append(f"/-- `#define {name}({','.join(defs[name][0])}) {defs[name][1]}`" +
                    ("  (register macros: " + "; ".join(f"{r}(i) = {defs[r][1]}" for r in "abcdefgh") + ")" if name == "R" else "") + " -/\n")
